@@ -17,6 +17,13 @@
 //!   bytes <cfg> <from byte> <to byte> <step>   every byte replaced by 00, ff, +1, -1
 //!   fields <cfg>          every fixed-size field and length prefix x boundary / random values
 //!   resize <cfg>          truncation / extension of every length-prefixed block (prefix kept consistent)
+//!   sresize <cfg>         structured resize: whole ELEMENTS (field elements, rows, digests, coefficients) dropped
+//!                         from / appended to every length-prefixed component — k = 1, a quarter, half, all but
+//!                         one; trailing elements dropped, zero elements or copies appended — with every
+//!                         enclosing length / count prefix (block lengths, `num_unique_queries`, node counts,
+//!                         Lagrange row count, layer count) rewritten so that the mutant parses; in particular
+//!                         the remainder truncated to / zero-extended to every power-of-two number of coefficients
+//!                         (also run on proofs of DEGENERATE valid traces whose remainder has zero top coefficients)
 //!   reorder <cfg>         swapped / substituted / duplicated openings, rows, nodes, layers, commitments
 //!   remainder <cfg>       adaptive: remainder + c * (vanishing polynomial of the folded queried points)
 //!   partitions <cfg>      every value of the FRI partition-count byte
@@ -484,6 +491,9 @@ struct Base {
     pubs: Vec<u128>,
     /// the verifier's query positions (sorted, de-duplicated) for the honest proof
     positions: Vec<usize>,
+    /// every column of the trace is constant: every committed tree is fully symmetric, every position opens
+    /// with the same values and nodes, so the proof is position-independent
+    constant_trace: bool,
 }
 
 fn make_base(c: &Cfg) -> Result<Base, Outcome> {
@@ -538,7 +548,8 @@ fn make_base(c: &Cfg) -> Result<Base, Outcome> {
     let mut positions = rec.ints.last().cloned().unwrap_or_default();
     positions.sort_unstable();
     positions.dedup();
-    Ok(Base { cfg: c.clone(), proof, bytes, pt, spans, pubs, positions })
+    let constant_trace = trace.iter().all(|col| col.iter().all(|v| *v == col[0]));
+    Ok(Base { cfg: c.clone(), proof, bytes, pt, spans, pubs, positions, constant_trace })
 }
 
 // ------------------------------------------------------------------------------------ judging
@@ -707,7 +718,13 @@ fn judge(b: &Base, t: &mut Tally, mutant: &[u8], what: &str, hint: &'static str)
             }
             t.accepted += 1;
             t.fails.push((
-                format!("c03.accepted-mutation.{}", comp),
+                // a proof of a constant trace verifies at every query position; data that only steers the
+                // transcript / positions / layout is then not bound by anything (distinct site)
+                if b.constant_trace && ["context.options", "fri.num_partitions", "pow_nonce"].contains(&comp) {
+                    format!("c03.accepted-mutation.{}.constant-trace", comp)
+                } else {
+                    format!("c03.accepted-mutation.{}", comp)
+                },
                 format!("{}: decoded content differs in {} and the proof was accepted; mutant={}", what, comp, if mutant.len() <= 6000 { hex(mutant) } else { format!("({} bytes)", mutant.len()) }),
             ));
         },
@@ -1855,6 +1872,375 @@ fn configs(rng: &mut Rng, tier: Tier) -> Vec<Cfg> {
     v
 }
 
+// ------------------------------------------------------------------------------------ structured resize
+/// drop `k` whole units from the end / append `k` units (zeros, or copies of the last units) to a block of
+/// `unit`-byte elements that starts `skip` bytes into the block; None when not applicable
+fn unit_edit(blk: &[u8], skip: usize, unit: usize, k: usize, mode: usize) -> Option<Vec<u8>> {
+    if unit == 0 || k == 0 || blk.len() < skip || (blk.len() - skip) % unit != 0 {
+        return None;
+    }
+    let n = (blk.len() - skip) / unit;
+    let mut v = blk.to_vec();
+    match mode {
+        0 => {
+            if k > n {
+                return None;
+            }
+            v.truncate(blk.len() - k * unit);
+        },
+        1 => v.extend(std::iter::repeat(0u8).take(k * unit)),
+        _ => {
+            if k > n {
+                return None;
+            }
+            let tail = blk[blk.len() - k * unit..].to_vec();
+            v.extend_from_slice(&tail);
+        },
+    }
+    Some(v)
+}
+
+/// the element counts to drop / append for a component of `n` elements
+fn unit_counts(n: usize) -> Vec<usize> {
+    let mut ks = vec![1, 2, n / 4, n / 2, n.saturating_sub(1), n, 2 * n, 3 * n];
+    ks.retain(|k| *k > 0);
+    ks.sort();
+    ks.dedup();
+    ks
+}
+
+/// structured resize: whole elements dropped / appended with every enclosing prefix rewritten
+fn run_sresize(b: &Base) -> Tally {
+    let mut t = Tally::default();
+    let c = &b.cfg;
+    let e = elem_bytes(c.field) * c.opts.ext as usize;
+    let eb = elem_bytes(c.field);
+    let db = c.hash.digest_bytes();
+    let nuq = b.pt.nuq as usize;
+    let modes = ["trailing elements dropped", "zero elements appended", "copies of the last elements appended"];
+    // ---- remainder: every element count, in particular every power of two below and above
+    {
+        let n = b.pt.remainder.len() / e.max(1);
+        let mut ks = unit_counts(n);
+        let mut p2 = 1;
+        while p2 < n {
+            ks.push(n - p2); // keep p2 coefficients
+            p2 *= 2;
+        }
+        ks.sort();
+        ks.dedup();
+        for k in ks {
+            for mode in 0..3 {
+                if let Some(v) = unit_edit(&b.pt.remainder, 0, e, k, mode) {
+                    if v.len() > 65535 {
+                        continue;
+                    }
+                    let mut p = b.pt.clone();
+                    p.remainder = v;
+                    judge(b, &mut t, &p.to_bytes(), &format!("remainder ({} coefficients): {} {}", n, k, modes[mode]), "fri.remainder");
+                }
+            }
+        }
+    }
+    // ---- OOD blocks: trace states (after the frame-size byte), evaluations, Lagrange frame (row count rewritten)
+    {
+        let n = (b.pt.ood_trace.len().saturating_sub(1)) / e.max(1);
+        for k in unit_counts(n) {
+            for mode in 0..3 {
+                if let Some(v) = unit_edit(&b.pt.ood_trace, 1, e, k, mode) {
+                    if v.len() <= 65535 {
+                        let mut p = b.pt.clone();
+                        p.ood_trace = v;
+                        judge(b, &mut t, &p.to_bytes(), &format!("OOD trace states ({} elements): {} {}", n, k, modes[mode]), "ood.trace");
+                    }
+                }
+            }
+        }
+        let n = b.pt.ood_evals.len() / e.max(1);
+        for k in unit_counts(n) {
+            for mode in 0..3 {
+                if let Some(v) = unit_edit(&b.pt.ood_evals, 0, e, k, mode) {
+                    if v.len() <= 65535 {
+                        let mut p = b.pt.clone();
+                        p.ood_evals = v;
+                        judge(b, &mut t, &p.to_bytes(), &format!("OOD evaluations ({} elements): {} {}", n, k, modes[mode]), "ood.evaluations");
+                    }
+                }
+            }
+        }
+        if !b.pt.ood_lagrange.is_empty() {
+            let n = (b.pt.ood_lagrange.len() - 1) / e.max(1);
+            for k in unit_counts(n.max(1)) {
+                for mode in 0..3 {
+                    if let Some(mut v) = unit_edit(&b.pt.ood_lagrange, 1, e, k, mode) {
+                        let rows = (v.len() - 1) / e.max(1);
+                        if rows < 256 && v.len() <= 65535 {
+                            v[0] = rows as u8;
+                            let mut p = b.pt.clone();
+                            p.ood_lagrange = v;
+                            judge(b, &mut t, &p.to_bytes(), &format!("Lagrange frame ({} rows): {} {}, row count rewritten", n, k, modes[mode]), "ood.lagrange");
+                        }
+                    }
+                }
+            }
+        }
+    }
+    // ---- commitments: whole digests
+    {
+        let n = b.pt.commitments.len() / db;
+        for k in unit_counts(n) {
+            for mode in 0..3 {
+                if let Some(v) = unit_edit(&b.pt.commitments, 0, db, k, mode) {
+                    if v.len() < 65535 {
+                        let mut p = b.pt.clone();
+                        p.commitments = v;
+                        judge(b, &mut t, &p.to_bytes(), &format!("commitments ({} digests): {} {}", n, k, modes[mode]), "commitments");
+                    }
+                }
+            }
+        }
+    }
+    // ---- query vectors: whole rows of every opening at once, `num_unique_queries` rewritten consistently
+    if nuq > 0 {
+        for k in unit_counts(nuq) {
+            for mode in 0..3 {
+                let new_rows = match mode {
+                    0 => {
+                        if k >= nuq {
+                            continue;
+                        }
+                        nuq - k
+                    },
+                    _ => nuq + k,
+                };
+                if new_rows == 0 || new_rows > 255 || (mode == 2 && k > nuq) {
+                    continue;
+                }
+                let mut p = b.pt.clone();
+                let mut ok = true;
+                for q in p.trace_queries.iter_mut() {
+                    let w = q.0.len() / nuq;
+                    match unit_edit(&q.0, 0, w, k, mode) {
+                        Some(v) => q.0 = v,
+                        None => ok = false,
+                    }
+                }
+                let w = p.constraint_queries.0.len() / nuq;
+                match unit_edit(&p.constraint_queries.0, 0, w, k, mode) {
+                    Some(v) => p.constraint_queries.0 = v,
+                    None => ok = false,
+                }
+                if !ok {
+                    continue;
+                }
+                p.nuq = new_rows as u8;
+                judge(b, &mut t, &p.to_bytes(), &format!("all query vectors ({} rows): {} {}, num_unique_queries rewritten", nuq, k, modes[mode]), "trace_queries.values");
+                // one opening only (the count then disagrees with the other openings)
+                let mut p1 = b.pt.clone();
+                let w = p1.constraint_queries.0.len() / nuq;
+                if let Some(v) = unit_edit(&p1.constraint_queries.0, 0, w, k, mode) {
+                    p1.constraint_queries.0 = v;
+                    judge(b, &mut t, &p1.to_bytes(), &format!("constraint query vector ({} rows): {} {}", nuq, k, modes[mode]), "constraint_queries.values");
+                }
+            }
+        }
+        // single elements inside the value blocks (rows become narrower / wider)
+        for mode in 0..3 {
+            let mut p = b.pt.clone();
+            if let Some(v) = unit_edit(&p.trace_queries[0].0, 0, eb, 1, mode) {
+                p.trace_queries[0].0 = v;
+                judge(b, &mut t, &p.to_bytes(), &format!("main trace query values: one element, {}", modes[mode]), "trace_queries.values");
+            }
+            let mut p = b.pt.clone();
+            if let Some(v) = unit_edit(&p.constraint_queries.0, 0, e, 1, mode) {
+                p.constraint_queries.0 = v;
+                judge(b, &mut t, &p.to_bytes(), &format!("constraint query values: one element, {}", modes[mode]), "constraint_queries.values");
+            }
+        }
+    }
+    // ---- Merkle node blocks: whole digests in the last vector / whole vectors, counts rewritten
+    {
+        let mut path_blocks: Vec<(&'static str, Box<dyn Fn(&mut PT) -> &mut Vec<u8>>)> = vec![];
+        for i in 0..b.pt.trace_queries.len() {
+            path_blocks.push(("trace_queries.paths", Box::new(move |p: &mut PT| &mut p.trace_queries[i].1)));
+        }
+        path_blocks.push(("constraint_queries.paths", Box::new(|p: &mut PT| &mut p.constraint_queries.1)));
+        for i in 0..b.pt.layers.len() {
+            path_blocks.push(("fri.layer.paths", Box::new(move |p: &mut PT| &mut p.layers[i].1)));
+        }
+        for (name, acc) in path_blocks {
+            let blk0 = {
+                let mut p = b.pt.clone();
+                acc(&mut p).clone()
+            };
+            // parse into vectors
+            let mut r = Rd { b: &blk0, p: 0 };
+            let nv = match r.uint(1) {
+                Some(n) => n,
+                None => continue,
+            };
+            let mut vecs: Vec<Vec<u8>> = vec![];
+            let mut good = true;
+            for _ in 0..nv {
+                match r.uint(1).and_then(|k| r.take(k * db)) {
+                    Some(x) => vecs.push(x.to_vec()),
+                    None => good = false,
+                }
+            }
+            if !good || r.p != blk0.len() || vecs.is_empty() {
+                continue;
+            }
+            let ser = |vs: &Vec<Vec<u8>>| -> Option<Vec<u8>> {
+                if vs.len() > 255 || vs.iter().any(|v| v.len() / db > 255) {
+                    return None;
+                }
+                let mut o = vec![vs.len() as u8];
+                for v in vs {
+                    o.push((v.len() / db) as u8);
+                    o.extend_from_slice(v);
+                }
+                Some(o)
+            };
+            let last = vecs.len() - 1;
+            let nl = vecs[last].len() / db;
+            for k in unit_counts(nl.max(1)) {
+                for mode in 0..3 {
+                    if let Some(v) = unit_edit(&vecs[last], 0, db, k, mode) {
+                        let mut vs = vecs.clone();
+                        vs[last] = v;
+                        if let Some(o) = ser(&vs) {
+                            let mut p = b.pt.clone();
+                            *acc(&mut p) = o;
+                            judge(b, &mut t, &p.to_bytes(), &format!("{}: last node vector ({} nodes): {} {}, counts rewritten", name, nl, k, modes[mode]), name);
+                        }
+                    }
+                }
+            }
+            // whole vectors dropped / an empty or duplicated vector appended
+            let mut vs = vecs.clone();
+            vs.pop();
+            if let Some(o) = ser(&vs) {
+                let mut p = b.pt.clone();
+                *acc(&mut p) = o;
+                judge(b, &mut t, &p.to_bytes(), &format!("{}: last node vector dropped, count rewritten", name), name);
+            }
+            for extra in [vec![], vecs[last].clone()] {
+                let mut vs = vecs.clone();
+                vs.push(extra);
+                if let Some(o) = ser(&vs) {
+                    let mut p = b.pt.clone();
+                    *acc(&mut p) = o;
+                    judge(b, &mut t, &p.to_bytes(), &format!("{}: a node vector appended, count rewritten", name), name);
+                }
+            }
+        }
+    }
+    // ---- FRI layer values: whole rows of `folding` elements; whole layers (count rewritten by the layout)
+    for i in 0..b.pt.layers.len() {
+        let w = e * c.opts.folding;
+        let n = b.pt.layers[i].0.len() / w.max(1);
+        for k in unit_counts(n) {
+            for mode in 0..3 {
+                if mode == 0 && k >= n {
+                    continue;
+                }
+                if let Some(v) = unit_edit(&b.pt.layers[i].0, 0, w, k, mode) {
+                    let mut p = b.pt.clone();
+                    p.layers[i].0 = v;
+                    judge(b, &mut t, &p.to_bytes(), &format!("FRI layer {} values ({} rows): {} {}", i, n, k, modes[mode]), "fri.layer.values");
+                }
+            }
+        }
+        for mode in 0..3 {
+            if let Some(v) = unit_edit(&b.pt.layers[i].0, 0, e, 1, mode) {
+                let mut p = b.pt.clone();
+                p.layers[i].0 = v;
+                judge(b, &mut t, &p.to_bytes(), &format!("FRI layer {} values: one element, {}", i, modes[mode]), "fri.layer.values");
+            }
+        }
+    }
+    t
+}
+
+/// descriptions whose valid traces are degenerate: constant columns, low-degree columns, the all-zero
+/// Fibonacci trace, the powers of the trace-domain generator (x' = g x, trace polynomial X)
+fn degenerate_descs(n: usize, field: FieldId) -> Vec<AirDesc> {
+    use winter_math::StarkField;
+    let g: u128 = match field {
+        FieldId::F62 => f62::BaseElement::get_root_of_unity(n.ilog2()).canon(),
+        FieldId::F64 => f64::BaseElement::get_root_of_unity(n.ilog2()).canon(),
+        FieldId::F128 => f128::BaseElement::get_root_of_unity(n.ilog2()).canon(),
+    };
+    let base = |width: usize, cols: Vec<ColGen>, constraints: Vec<Constraint>, assertions: Vec<AssertDesc>| AirDesc {
+        width,
+        trace_len: n,
+        exemptions: 1,
+        tail_junk: false,
+        periodic: vec![],
+        cols,
+        constraints,
+        assertions,
+        aux: None,
+    };
+    let lin = |e: Expr| Constraint { degree: Degree::new(1), expr: e };
+    let mut v = vec![];
+    // x' = g x from 1: the trace is g^i, its polynomial is X
+    let gx = Expr::mul(Expr::Const(g), Expr::Cur(0));
+    v.push(base(1, vec![ColGen::Step { init: Some(1), expr: gx.clone() }], vec![lin(Expr::sub(Expr::Nxt(0), gx))], vec![AssertDesc::single(0, 0)]));
+    // constant columns
+    v.push(base(
+        2,
+        vec![ColGen::Const(Some(7)), ColGen::Const(None)],
+        vec![lin(Expr::sub(Expr::Nxt(0), Expr::Cur(0))), lin(Expr::sub(Expr::Nxt(1), Expr::Cur(1)))],
+        vec![AssertDesc::single(0, 0), AssertDesc::single(1, n - 1)],
+    ));
+    // the all-zero Fibonacci trace
+    let f0 = Expr::Cur(1);
+    let f1 = Expr::add(Expr::Cur(0), Expr::Cur(1));
+    v.push(base(
+        2,
+        vec![ColGen::Step { init: Some(0), expr: f0.clone() }, ColGen::Step { init: Some(0), expr: f1.clone() }],
+        vec![lin(Expr::sub(Expr::Nxt(0), f0)), lin(Expr::sub(Expr::Nxt(1), f1))],
+        vec![AssertDesc::single(0, 0), AssertDesc::single(1, n - 1)],
+    ));
+    // a constant column and low-degree columns (degree 1 and 2) that no constraint reads
+    v.push(base(
+        3,
+        vec![ColGen::Const(Some(1)), ColGen::LowDeg(1), ColGen::LowDeg(2)],
+        vec![lin(Expr::sub(Expr::Nxt(0), Expr::Cur(0)))],
+        vec![AssertDesc::single(0, 3), AssertDesc::single(1, 0)],
+    ));
+    v.into_iter().filter(|d| d.validate().is_ok()).collect()
+}
+
+fn degenerate_configs(tier: Tier) -> Vec<Cfg> {
+    let quick = tier == Tier::Quick;
+    let mut v = vec![];
+    let mut k = 0usize;
+    let lens: &[usize] = if quick { &[8, 16] } else { &[8, 16, 32, 64] };
+    for &n in lens {
+        for field in FieldId::ALL {
+            for d in degenerate_descs(n, field) {
+                let hashes = HashId::for_field(field);
+                let reps = if quick { 1 } else { hashes.len() };
+                for rep in 0..reps {
+                    k += 1;
+                    let hash = hashes[(k + rep) % hashes.len()];
+                    let exts: Vec<u8> = (1..=3u8).filter(|x| field.supports_ext(*x)).collect();
+                    let ext = exts[k % exts.len()];
+                    let b = d.min_blowup().max(if k % 2 == 0 { 4 } else { 2 });
+                    // remainders of 4 .. 16 coefficients after 0, 1 or 2 layers
+                    let (f, r) = [(2usize, 7usize), (2, 3), (4, 7), (2, 15), (4, 3)][k % 5];
+                    let (f, r) = if fri_ok(n * b, b, f, r) { (f, r) } else { (2, 3) };
+                    let q = [1usize, 2, 3][k % 3];
+                    v.push(Cfg { field, hash, opts: OptSpec::new(q, b, 0, ext, f, r), seed: 5000 + k as u64, desc: Arc::new(d.clone()), meta: vec![] });
+                }
+            }
+        }
+    }
+    v
+}
+
 impl Prop for P {
     fn id(&self) -> &'static str {
         "C03"
@@ -1920,7 +2306,7 @@ impl Prop for P {
                 emit(format!("bytes {} {} {} {}", ct, from + (ci % bstep), (from + bstep * 150).min(b.bytes.len()), bstep));
                 from += bstep * 150;
             }
-            for fam in ["fields", "resize", "reorder", "remainder", "partitions", "extras"] {
+            for fam in ["fields", "resize", "sresize", "reorder", "remainder", "partitions", "extras"] {
                 emit(format!("{} {}", fam, ct));
             }
             emit(format!("nonces {} {}", ct, if quick { 64 } else { 1024 }));
@@ -1934,6 +2320,15 @@ impl Prop for P {
             emit(refv[refv_next].clone());
             refv_next += 1;
         }
+        // proofs of degenerate valid traces (constant / low-degree / all-zero columns, x' = g x): their DEEP
+        // composition has low degree, so the FRI remainder ends in zero coefficients
+        for c in degenerate_configs(tier) {
+            let ct = cfg_text(&c);
+            for fam in ["sresize", "remainder", "resize", "reorder", "extras", "fields"] {
+                emit(format!("{} {}", fam, ct));
+            }
+            emit(format!("nonces {} {}", ct, if tier == Tier::Quick { 16 } else { 256 }));
+        }
         emit("flips f64".into());
         emit("fields f64 blake3_256 1.2.0.1.2.3 1 garbage -".into());
         emit("refv f64 rp64_256 1.2.0.1.2.3 1 garbage os:1.2.0.1.2.3 - honest 00".into());
@@ -1945,7 +2340,7 @@ impl Prop for P {
             Some(op) => op,
             None => return Outcome::ok("bad-op"),
         };
-        if !["flips", "bytes", "fields", "resize", "reorder", "remainder", "partitions", "nonces", "extras", "chan", "refv"].contains(&op) {
+        if !["flips", "bytes", "fields", "resize", "sresize", "reorder", "remainder", "partitions", "nonces", "extras", "chan", "refv"].contains(&op) {
             return Outcome::ok("bad-op");
         }
         if op == "chan" {
@@ -1973,6 +2368,7 @@ impl Prop for P {
             ("bytes", 3) => run_bytes(&b, nums[0], nums[1], nums[2]),
             ("fields", 0) => run_fields(&b),
             ("resize", 0) => run_resize(&b),
+            ("sresize", 0) => run_sresize(&b),
             ("reorder", 0) => run_reorder(&b),
             ("remainder", 0) => run_remainder(&b),
             ("partitions", 0) => run_partitions(&b),
